@@ -21,7 +21,14 @@ log-prob row as a function of the row's decoding state.  The action selection (a
 the multinomial sampler, or the externally supplied actions of `Evaluate`) is an oracle
 `sel : row → step → Row → action`.  The python buffers `self.actions`, `self.logprobs` are lists in
 chronological order (`append` = `++ [x]`).
+
+Translator tie: the decision-critical tokens of the two source files are *extracted from the Python AST on
+every run* (harness/probes/loglik.py → `Rl4co/Generated/Params.lean`) and enter the definitions below as
+parameters (`Params.gll…`, `Params.pre…`, `Params.decode…`, `Params.selectBest…`, `Params.entropy…`,
+`Params.ppo…`); the lemmas of `Proofs/Loglik.lean` (section "extracted parameters") and the property
+theorems need their pinned values and stop compiling when a token of the source changes.
 -/
+import Rl4co.Generated.Params
 namespace Rl4co.Decode
 
 /-- log-probability; `none` = `-inf` -/
@@ -54,7 +61,7 @@ def mkRec (storeAll : Bool) (row : Row) (a : Nat) : Rec :=
 
 /-- `pre_decoder_hook`: `zeros_like(td["action_mask"])` (`[B,N]`) or `zeros_like(action)` (`[B]`) -/
 def forcedRec (storeAll : Bool) (N : Nat) : Rec :=
-  if storeAll then .full (List.replicate N (some 0)) else .g (some 0)
+  if storeAll then .full (List.replicate N (some Params.preForcedLogpAll)) else .g (some Params.preForcedLogp)
 
 /-- `get_log_likelihood`: `if actions is not None and logprobs.dim() == 3: gather` -/
 def recVal : Rec → Nat → LP
@@ -62,7 +69,9 @@ def recVal : Rec → Nat → LP
   | .full row, a => gather row a
 
 /-- `logprobs[~mask] = 0` for one entry -/
-def maskVal (v : LP) (keep : Bool) : LP := if keep then v else some 0
+def maskVal (v : LP) (keep : Bool) : LP :=
+  -- `logprobs[~mask] = 0`: the subscript is `~mask` (`Params.gllMaskInverted`), the assigned constant `Params.gllMaskFill`
+  if (if Params.gllMaskInverted then !keep else keep) then some Params.gllMaskFill else v
 
 /-- `get_log_likelihood(logprobs, actions, mask, return_sum=False)` for one row -/
 def getLL (recs : List Rec) (acts : List Nat) (mask : Option (List Bool)) : List LP :=
@@ -73,13 +82,16 @@ def getLL (recs : List Rec) (acts : List Nat) (mask : Option (List Bool)) : List
 
 /-- `get_log_likelihood(..., return_sum=True)` -/
 def getLLSum (recs : List Rec) (acts : List Nat) (mask : Option (List Bool)) : LP :=
-  lpSum (getLL recs acts mask)
+  -- `logprobs.sum(1)`: axis 1 of `[batch, steps]` is the row's own steps (`Params.gllSumAxis`); any other axis is
+  -- not a per-row sum and is modelled as the assertion-failure value
+  if Params.gllSumAxis = 1 then lpSum (getLL recs acts mask) else none
 
 /-- `calculate_entropy`: `-(logprobs.exp() * logprobs).sum(-1).sum(1)` for one row of the batch.
-`term` is the elementwise map `lp ↦ -(exp lp · lp)` after `nan_to_num` (an oracle: `exp` is not
-modelled); the model is the double sum. -/
-def calculateEntropy (term : LP → Int) (rows : List Row) : Int :=
-  (rows.map (fun row => (row.map term).foldr (· + ·) 0)).foldr (· + ·) 0
+`prod` is the elementwise map `lp ↦ exp lp · lp` after `nan_to_num` (an oracle: `exp` is not modelled); the
+model is the double sum and the leading minus sign (`Params.entropyNegated`). -/
+def calculateEntropy (prod : LP → Int) (rows : List Row) : Int :=
+  let total := (rows.map (fun row => (row.map prod).foldr (· + ·) 0)).foldr (· + ·) 0
+  if Params.entropyNegated then -total else total
 
 /-- the `[B, T, N]` tensor handed to `calculate_entropy` (only exists when `store_all_logp`) -/
 def fullRows : List Rec → Option (List Row)
@@ -126,7 +138,9 @@ def iter (e : DEnv S) (storeAll : Bool) (π : S → Row) (sel : Nat → Row → 
 
 /-- `td["done"].all()` -/
 def allDone (e : DEnv S) (B : Nat) (b : Nat → RowSt S) : Bool :=
-  (List.range B).all (fun r => e.done (b r).s)
+  -- `.all()` vs `.any()` is extracted (`Params.decodeLoopAllDone`)
+  if Params.decodeLoopAllDone then (List.range B).all (fun r => e.done (b r).s)
+  else (List.range B).any (fun r => e.done (b r).s)
 
 /-- The `while not td["done"].all()` loop.  `fuel` counts the passes still allowed: the code leaves
 the loop through `break` once `step > max_steps`, i.e. after `max_steps + 1` passes, so `decode`
@@ -138,14 +152,23 @@ def loop (e : DEnv S) (π : S → Row) (sel : Nat → Nat → Row → Nat) (stor
     if allDone e B b then (b, t)
     else loop e π sel storeAll B f (t + 1) (iter e storeAll π (fun r row => sel r t row) b)
 
+/-- Number of passes after which `if step <cmp> max_steps: break` leaves the loop (`step` is incremented
+before the test): `max_steps + 1` for `>` (the pinned operator, `Params.decodeBreakCmp`), `max(max_steps, 1)`
+for `>=`. -/
+def loopFuel (maxSteps : Nat) : Nat :=
+  match Params.decodeBreakCmp with
+  | .ge => max maxSteps 1
+  | _ => maxSteps + 1
+
 /-- `Evaluate._step`: the action is `actions[..., step]` -/
 def evalSel (actions : Nat → List Nat) : Nat → Nat → Row → Nat :=
-  fun r t _ => (actions r).getD t 0
+  -- the index expression is `step + Params.evalActionOffset` (extracted; `step` itself at the pinned commit)
+  fun r t _ => (actions r).getD ((t : Int) + Params.evalActionOffset).toNat 0
 
 /-- `policy(td, env, decode_type=…, max_steps=…)` up to (not including) `post_decoder_hook`. -/
 def decode (e : DEnv S) (π : S → Row) (sel : Nat → Nat → Row → Nat) (storeAll : Bool) (B N : Nat)
     (maxSteps : Nat) (start : Option (Nat → Nat)) (s0 : Nat → S) : (Nat → RowSt S) × Nat :=
-  loop e π sel storeAll B (maxSteps + 1) 0 (pre e storeAll N start s0)
+  loop e π sel storeAll B (loopFuel maxSteps) 0 (pre e storeAll N start s0)
 
 /-- `policy(td, env, actions=…)`: decode type `evaluate` (never multistart). -/
 def evaluate (e : DEnv S) (π : S → Row) (actions : Nat → List Nat) (storeAll : Bool) (B N : Nat)
@@ -156,13 +179,18 @@ def evaluate (e : DEnv S) (π : S → Row) (actions : Nat → List Nat) (storeAl
 by `.max(dim=-1)` for instance `b`; `unbatchify_and_gather` picks row `arg b · B + b`. -/
 def selectBestRow (B : Nat) (arg : Nat → Nat) (b : Nat) : Nat := arg b * B + b
 
+/-- the reduction of `_select_best` / `_select_best_beam` is `.max` (`Params.selectBestIsMax`, extracted; both call
+sites must agree: `Params.beamBestIsMax`): `x` may be returned in the presence of `y` -/
+def betterEq (x y : Int) : Bool :=
+  if Params.selectBestIsMax && Params.beamBestIsMax then decide (y ≤ x) else decide (x ≤ y)
+
 /-- `arg b` is a valid result of `max(dim=-1)` over the `S` copies of instance `b`. -/
 def ValidArgmax (B S : Nat) (rew : Nat → Int) (arg : Nat → Nat) : Prop :=
-  ∀ b, b < B → arg b < S ∧ ∀ s, s < S → rew (s * B + b) ≤ rew (arg b * B + b)
+  ∀ b, b < B → arg b < S ∧ ∀ s, s < S → betterEq (rew (arg b * B + b)) (rew (s * B + b)) = true
 
 def validArgmax (B S : Nat) (rew : Nat → Int) (arg : Nat → Nat) : Bool :=
   (List.range B).all fun b =>
-    decide (arg b < S) && (List.range S).all fun s => decide (rew (s * B + b) ≤ rew (arg b * B + b))
+    decide (arg b < S) && (List.range S).all fun s => betterEq (rew (arg b * B + b)) (rew (s * B + b))
 
 /-- `post_decoder_hook` with `select_best`: the batch of selected rows. -/
 def post (B : Nat) (sb : Option (Nat → Nat)) (b : Nat → RowSt S) : Nat → RowSt S :=
@@ -174,7 +202,7 @@ def post (B : Nat) (sb : Option (Nat → Nat)) (b : Nat → RowSt S) : Nat → R
 (an oracle; only `ex 0 = 1` is ever used); a `-inf` on either side gives `none`. -/
 def ppoRatio (ex : Int → Int) (llNew : List LP) (llOld : LP) : LP :=
   match lpSum llNew, llOld with
-  | some a, some b => some (ex (a - b))
+  | some a, some b => some (ex (if Params.ppoRatioNewMinusOld then a - b else b - a))
   | _, _ => none
 
 end Rl4co.Decode
